@@ -27,12 +27,21 @@ RULE = ("exhaustive (forced value tape): PMX = all permutation pairs of 0..n-1 (
         "2^40, float strategies, bounds as int/list/tuple/range/array up to +-2^40, indpb in {0, 1, boundary, random}. "
         "Call forms: every exported name of an operator is a stream of its own (cxTwoPoints, cxESTwoPoints = the documented "
         "former names) and parameters are passed positionally or by keyword (toolbox.register style). "
+        "Representation stream (second in the run): EVERY operator is called with the same draws on list, array.array('q'/'d') "
+        "AND numpy.ndarray individuals (ES: numpy individuals with numpy and with list strategies) and compared with the buffer "
+        "model under both slice disciplines (`C09 buf ...`: copy = list/array, view = numpy) - slice crossovers on all length "
+        "pairs 0..4 x all cuts (numpy: gene loss, ValueError, one-item broadcast, contents after the exception), inversion "
+        "n<=5 x all index pairs, 120 random cases per operator. "
         "Non-trivial = the draws make the operator change at least one argument")
 EXHAUSTIVE = {"quick": False, "thorough": False}
 TIME_BUDGET = {"quick": 60, "thorough": 900}
 MIN_CASES = 20000
 TRUSTED = ["CPython list/array.array item and slice assignment and tuple-assignment order (right-hand side first, then "
            "targets left to right) as transcribed in Core/CrossMut.lean; every protocol line exercises them",
+           "numpy semantics as transcribed in Core/Buffer.lean: a slice of a one-dimensional array is a window onto the same "
+           "storage, an item read is a scalar (a value), slice assignment reads its whole right-hand side at assignment time "
+           "(numpy >= 1.13 copies an overlapping right-hand side first), needs equal lengths or a one-item right-hand side "
+           "(broadcast) and raises ValueError otherwise; exercised on real numpy arrays by every line of the `buf` stream",
            "random.randint/randrange/choice/sample return values inside their documented ranges (the guards `…Ok`; the "
            "model rejects any other draw)",
            "IEEE comparison random() < indpb is replayed in Lean Float (same operation)",
@@ -41,9 +50,23 @@ TRUSTED = ["CPython list/array.array item and slice assignment and tuple-assignm
            "only fix the model's convention and hold for any operator"]
 ASSUMPTIONS = ["the two parents are different objects; ES strategies are as long as their individuals",
                "permutation operators get two permutations of 0..n-1 of the same length",
-               "numpy-backed individuals only for the element-wise operators (no slice assignment)",
+               "the statement is judged (oracle) on list- and array.array-backed individuals for every operator and on numpy-backed "
+               "ones for the element-wise operators (cxUniform, PMX, UPMX, OX, shuffle, bit flip, uniform int) only, as its quantifier "
+               "says. On numpy.ndarray a slice is a view: cxOnePoint, cxTwoPoint(s), cxMessyOnePoint and cxESTwoPoint(s) lose the "
+               "first parent's segment or raise ValueError (doc/tutorials/advanced/numpy.rst: these operators must be re-implemented "
+               "with explicit copies; theorems C09.slice_swap_view_loses_genes, twopoint_view_exact, twopoint_view_conserves_iff). "
+               "Those calls, and mutInversion on numpy (which is correct there: C09.inversion_repr_independent), are only compared "
+               "with the `view` model - a correspondence check, never an oracle failure",
+               "individuals are one-dimensional (an item of a numpy individual is a scalar, not a row view)",
                "bit-flip individuals are homogeneous: all genes int 0/1, all bool, or all float 0.0/1.0"]
-EXPLANATION = ("Theorems C09.* hold for all gene lists, all lengths and all draws inside the ranges of the random functions; "
+EXPLANATION = ("Representation is explicit: Core/Buffer.lean models sequence objects as buffers in a heap with the slice "
+               "disciplines copy (list, array.array) and view (numpy), Core/CrossMutBuf.lean re-expresses all operators over it "
+               "statement by statement. Proved: under copy every operator completes under its guard (no subscript fails) and equals "
+               "the list model (copy_refines_list, refines_list_*), the element-wise operators do not depend on the discipline "
+               "(elementwise_repr_independent, *_any_backing), mutInversion is the same under both (inversion_repr_independent), the "
+               "slice-swapping crossovers under view leave parent 2 unchanged and lose parent 1's segment (twopoint/onepoint/es_view_exact, "
+               "twopoint_view_conserves_iff, slice_swap_view_loses_genes). "
+               "Theorems C09.* hold for all gene lists, all lengths and all draws inside the ranges of the random functions; "
                "Core/CrossMut.lean is tied to deap.tools by replaying forced and recorded value tapes of the real operators "
                "(the tape is kind-agnostic: randint(a,b), randrange(a,b+1), choice(range) and the elements of sample() are "
                "all 'an integer draw'). uniform_int_bounds is a statement about position<->bound alignment: the model rejects "
@@ -202,7 +225,8 @@ def flatten(tape):
 # individuals
 # ------------------------------------------------------------------------------------------------
 _ARR = {"array": "i", "array_b": "b", "array_q": "q", "array_d": "d"}
-for _name, _base, _kw in ([("C09List", list, {}), ("C09Numpy", numpy.ndarray, {}), ("C09ESList", list, {"strategy": None})]
+for _name, _base, _kw in ([("C09List", list, {}), ("C09Numpy", numpy.ndarray, {}), ("C09ESList", list, {"strategy": None}),
+                           ("C09ESNumpy", numpy.ndarray, {"strategy": None})]
                           + [("C09A" + c, array.array, {"typecode": c}) for c in "biqd"]
                           + [("C09ESA" + c, array.array, {"typecode": c, "strategy": None}) for c in "iqd"]):
     if not hasattr(creator, _name):
@@ -363,7 +387,7 @@ def evaluate(d):
     try:
         with warnings.catch_warnings():
             warnings.simplefilter("ignore")          # the former names emit a FutureWarning
-            c = _evaluate(d)
+            c = _evaluate_buf(d) if d.get("stream") == "buf" else _evaluate(d)
         t = _last_tape[0]
         if t is not None and t.unreplayable and c.oracle is None:
             return Case(d, [], [], oracle="TAPE: code called random.%s, which the model cannot replay" % t.unreplayable,
@@ -384,14 +408,17 @@ def finish(d, line, exp, orc, tag, nontrivial):
     return Case(d, [line], [exp], orc, tag=tag, nontrivial=nontrivial)
 
 
-def _evaluate(d):
+def _evaluate(d, judge=True, catch=False):
+    """judge=False: the statement is not evaluated on this run (backing outside the oracle's domain: the
+    slice-swapping operators on numpy views); catch=True: an exception of the operator is part of the canonical
+    answer (`raise:<Exception> <contents afterwards>`), for the runs that are only compared with the model."""
     op, back = d["op"], d.get("back", "list")
     tape = make_tape(d)
     orc = None
 
     def fail(msg):
         nonlocal orc
-        if orc is None:
+        if orc is None and judge:
             orc = msg
 
     base = ALIAS.get(op, op)
@@ -404,20 +431,36 @@ def _evaluate(d):
         if back == "list":
             i1, i2 = creator.C09ESList(d["a"]), creator.C09ESList(d["b"])
             i1.strategy, i2.strategy = list(sa), list(sb)
+        elif back in ("numpy", "numpy_ls"):
+            # numpy-backed individuals; strategies numpy arrays (views again) or plain lists
+            i1, i2 = creator.C09ESNumpy(d["a"]), creator.C09ESNumpy(d["b"])
+            if back == "numpy":
+                i1.strategy, i2.strategy = numpy.array(sa), numpy.array(sb)
+            else:
+                i1.strategy, i2.strategy = list(sa), list(sb)
         else:
             cls = getattr(creator, "C09ESA" + _ARR[back])
             i1, i2 = cls(conv(d["a"], "f" if back == "array_d" else "i")), cls(conv(d["b"], "f" if back == "array_d" else "i"))
             sc = "d" if sfloat else "q"
             i1.strategy, i2.strategy = array.array(sc, sa), array.array(sc, sb)
         s1, s2 = i1.strategy, i2.strategy
+        raised = None
         with tape:
-            ret = getattr(tools, ESOPS[op])(i1, i2)
+            try:
+                ret = getattr(tools, ESOPS[op])(i1, i2)
+            except Exception as e:  # noqa
+                if not catch:
+                    raise
+                raised, ret = type(e).__name__, (i1, i2)
         _, ints = split_draws(tape.draws)
         ids = ident(ret, (i1, i2)) + ident((i1.strategy, i2.strategy), (i1, i2, s1, s2))
         line = None
         if len(ints) == 2:
             line = "C09 %s %s %s %s %s %d %d" % (op, ilist(d["a"]), stok(sa), ilist(d["b"]), stok(sb), ints[0], ints[1])
         exp = "%s %s %s %s %s" % (tlist(i1), stok(s1), tlist(i2), stok(s2), " ".join(ids))
+        if raised:
+            exp = "raise:%s %s %s %s %s" % (raised, tlist(i1), stok(s1), tlist(i2), stok(s2))
+            return finish(d, line, exp, None, "%s/%s/raise" % (op, back), True)
         if not (isinstance(ret, tuple) and len(ret) == 2 and ret[0] is i1 and ret[1] is i2):
             fail("returned objects are not the two arguments")
         else:
@@ -444,11 +487,17 @@ def _evaluate(d):
         p1, p2 = list(d["a"]), list(d["b"])
         i1, i2 = mk(back, p1), mk(back, p2)
         indpb = d.get("indpb")
+        raised = None
         with tape:
-            if op in ("uniform", "upmx"):
-                ret = CROSS[op](i1, i2, indpb=indpb) if kw else CROSS[op](i1, i2, indpb)
-            else:
-                ret = CROSS[op](i1, i2)
+            try:
+                if op in ("uniform", "upmx"):
+                    ret = CROSS[op](i1, i2, indpb=indpb) if kw else CROSS[op](i1, i2, indpb)
+                else:
+                    ret = CROSS[op](i1, i2)
+            except Exception as e:  # noqa
+                if not catch:
+                    raise
+                raised, ret = type(e).__name__, (i1, i2)
         rs, ints = split_draws(tape.draws)
         line = None
         if op in ("uniform", "upmx"):
@@ -459,6 +508,8 @@ def _evaluate(d):
         elif len(ints) == 2:
             line = "C09 %s %s %s %d %d" % (op, ilist(p1), ilist(p2), ints[0], ints[1])
         exp = "%s %s %s" % (tlist(i1), tlist(i2), " ".join(ident(ret, (i1, i2))))
+        if raised:
+            return finish(d, line, "raise:%s %s %s" % (raised, tlist(i1), tlist(i2)), None, "%s/%s/raise" % (op, back), True)
         if not (isinstance(ret, tuple) and len(ret) == 2 and ret[0] is i1 and ret[1] is i2):
             fail("returned objects are not the two arguments (in place)")
         c1, c2 = [val(x) for x in ret[0]], [val(x) for x in ret[1]]
@@ -492,16 +543,22 @@ def _evaluate(d):
         psig = sig(ind)
         indpb = d.get("indpb")
         low = up = None
+        raised = None
         with tape:
-            if op in ("shuffle", "flip", "flipb", "flipf"):
-                ret = MUT[op](ind, indpb=indpb) if kw else MUT[op](ind, indpb)
-            elif op == "uniformint":
-                low = mk_bound(d.get("lowkind", "list" if isinstance(d["low"], list) else "scalar"), d["low"])
-                up = mk_bound(d.get("upkind", "list" if isinstance(d["up"], list) else "scalar"), d["up"])
-                ret = (tools.mutUniformInt(ind, low=low, up=up, indpb=indpb) if kw
-                       else tools.mutUniformInt(ind, low, up, indpb))
-            else:
-                ret = tools.mutInversion(ind)
+            try:
+                if op in ("shuffle", "flip", "flipb", "flipf"):
+                    ret = MUT[op](ind, indpb=indpb) if kw else MUT[op](ind, indpb)
+                elif op == "uniformint":
+                    low = mk_bound(d.get("lowkind", "list" if isinstance(d["low"], list) else "scalar"), d["low"])
+                    up = mk_bound(d.get("upkind", "list" if isinstance(d["up"], list) else "scalar"), d["up"])
+                    ret = (tools.mutUniformInt(ind, low=low, up=up, indpb=indpb) if kw
+                           else tools.mutUniformInt(ind, low, up, indpb))
+                else:
+                    ret = tools.mutInversion(ind)
+            except Exception as e:  # noqa
+                if not catch:
+                    raise
+                raised, ret = type(e).__name__, (ind,)
         rs, ints = split_draws(tape.draws)
         line = None
         if op == "shuffle":
@@ -518,6 +575,8 @@ def _evaluate(d):
             exp = "%s %s %s" % (tlist(ind), sig(ind), " ".join(ident(ret, (ind,))))
         else:
             exp = "%s %s" % (tlist(ind), " ".join(ident(ret, (ind,))))
+        if raised:
+            return finish(d, line, "raise:%s %s" % (raised, tlist(ind)), None, "%s/%s/raise" % (op, back), True)
         if not (isinstance(ret, tuple) and len(ret) == 1 and ret[0] is ind):
             fail("returned object is not the argument (in place)")
         c = [val(x) for x in ret[0]]
@@ -553,6 +612,79 @@ def _evaluate(d):
             tag += "/%s-%s" % (d.get("lowkind", "-"), d.get("upkind", "-"))
         return finish(d, line, exp, orc, tag, c != p)
     raise ValueError(op)
+
+
+# ------------------------------------------------------------------------------------------------
+# representation stream: the same call on list, array.array AND numpy.ndarray individuals against the buffer model
+# (Core/Buffer.lean, Core/CrossMutBuf.lean) under both slice disciplines
+# ------------------------------------------------------------------------------------------------
+# operators that read and write single items only: the statement covers numpy-backed individuals for these
+ELEMENTWISE = ("uniform", "pmx", "upmx", "ox", "shuffle", "flip", "flipb", "flipf", "uniformint")
+BUF_ARRAY = {"flipf": "array_d", "flipb": None}       # array backing of the second line (default array('q'))
+
+
+def _answer(c, op):
+    """the answer part `<contents> <ids>` of one real run, in the buffer protocol's format"""
+    e = c.expect[0]
+    if op in FLIPTYPE and not e.startswith("raise:"):
+        t = e.split(" ")
+        e = " ".join([t[0]] + t[2:])                   # without the gene-type signature
+    return e
+
+
+def _evaluate_buf(d):
+    op = d["op"]
+    base = ALIAS.get(op, op)
+    e = {k: v for k, v in d.items() if k != "stream"}
+    # 1. list-backed: records the draws (or consumes the forced tape)
+    c_list = _evaluate(dict(e, back="list"))
+    first = _last_tape[0]
+    if first.unreplayable or not c_list.lines:
+        _last_tape[0] = first
+        return Case(d, [], [], c_list.oracle or ("TAPE: code called random.%s, which the model cannot replay"
+                                                 % first.unreplayable if first.unreplayable else
+                                                 "TAPE: the number of draws made by the operator does not fit the model's arguments"),
+                    tag="buf/" + op + "/tape")
+    forced = {k: v for k, v in e.items() if k != "tapeseed"}
+    forced["tape"] = [list(x) for x in first.draws]
+    # 2. array.array-backed: same draws, must behave exactly like the list (slices are copies)
+    ak = BUF_ARRAY.get(op, "array_q")
+    c_arr = _evaluate(dict(forced, back=ak)) if ak else None
+    # 3. numpy-backed: same draws.  The element-wise operators are judged by the statement; the slice-swapping ones
+    #    (and the inversion) are only compared with the `view` model - an exception is part of the answer there
+    inside = base in ELEMENTWISE
+    c_np = _evaluate(dict(forced, back="numpy"), judge=inside, catch=not inside)
+    c_ls = _evaluate(dict(forced, back="numpy_ls"), judge=False, catch=True) if base == "estwopoint" else None
+    _last_tape[0] = first
+    line = "C09 buf " + c_list.lines[0][4:]
+    # A slice-swapping crossover whose numpy run gives exactly what the list run gives (the segments happen to hold the
+    # same genes, or the operator was re-implemented with explicit copies as numpy.rst asks) is no break of anything:
+    # it is then compared with the `copy` model only.  Every other numpy result must be the `view` model's prediction.
+    copy_like = (not inside and base != "inversion" and _answer(c_np, op) == _answer(c_list, op)
+                 and (c_ls is None or _answer(c_ls, op) == _answer(c_list, op)))
+    if copy_like:
+        line = "C09 bufc " + c_list.lines[0][4:]
+    orc = None
+    for name, c in (("list", c_list), ("array", c_arr), ("numpy", c_np)):
+        if c is not None and c.oracle and orc is None:
+            orc = c.oracle if c.oracle.startswith("TAPE:") else "%s-backed: %s" % (name, c.oracle)
+    for c in (c_arr, c_np, c_ls):
+        if c is not None and not c.lines:
+            return Case(d, [], [], orc or "TAPE: the draws of the operator differ between the backings", tag="buf/" + op + "/tape")
+    lines, expect = [], []
+    for c in (c_list, c_arr):
+        if c is None:
+            continue
+        if copy_like:
+            ans = ("cc %s" if base == "estwopoint" else "copy %s") % _answer(c, op)
+        elif base == "estwopoint":
+            ans = "cc %s vv %s vc %s" % (_answer(c, op), _answer(c_np, op), _answer(c_ls, op))
+        else:
+            ans = "copy %s view %s" % (_answer(c, op), _answer(c_np, op))
+        lines.append(line)
+        expect.append(ans)
+    kind = "raise" if c_np.expect[0].startswith("raise:") else ("same" if _answer(c_np, op) == _answer(c_list, op) else "differs")
+    return Case(d, lines, expect, orc, tag="buf/%s/numpy-%s" % (op, kind), nontrivial=c_list.nontrivial)
 
 
 # ------------------------------------------------------------------------------------------------
@@ -812,9 +944,46 @@ def random_case(rng, op=None):
     return d
 
 
+def buf_cases(tier, rng, mult):
+    """representation stream (list / array.array / numpy.ndarray against the buffer model under both disciplines)"""
+    # every length pair x every cut for the slice-swapping crossovers: on numpy the equal-length cases lose genes,
+    # the different-length ones raise ValueError or broadcast a one-item slice
+    for n1 in range(0, 5):
+        for n2 in range(0, 5):
+            a = list(range(10, 10 + n1))
+            b = list(range(20, 20 + n2))
+            size = min(n1, n2)
+            if size >= 2:
+                for c in range(1, size):
+                    yield {"stream": "buf", "op": "onepoint", "a": a, "b": b, "tape": [ri(c)]}
+                for c1 in range(1, size + 1):
+                    for c2 in range(1, size):
+                        yield {"stream": "buf", "op": "twopoint", "a": a, "b": b, "tape": [ri(c1), ri(c2)]}
+                        yield {"stream": "buf", "op": "estwopoint", "a": a, "b": b, "sa": [100 + x for x in a],
+                               "sb": [100 + x for x in b], "sfloat": (n1 + n2) % 2 == 0, "tape": [ri(c1), ri(c2)]}
+            for c1 in range(0, n1 + 1):
+                for c2 in range(0, n2 + 1):
+                    yield {"stream": "buf", "op": "messy", "a": a, "b": b, "tape": [ri(c1), ri(c2)]}
+    for n in range(0, 6):
+        if n == 0:
+            yield {"stream": "buf", "op": "inversion", "a": [], "tape": []}
+        for i in range(n):
+            for j in range(n):
+                yield {"stream": "buf", "op": "inversion", "a": list(range(n)), "tape": [ri(i), ri(j)]}
+    per_op = (120 if tier == "quick" else 1200) * mult
+    for op in OPS:
+        for _ in range(per_op):
+            d = random_case(rng, op)
+            d["stream"] = "buf"
+            yield d
+
+
 def generate(tier, rng, mult):
     # long permutations first (a clause of their own: tables must hold every index), every run
     for d in big_perm_cases(rng, 3 if tier == "quick" else 12):
+        yield d
+    # every operator on list, array.array and numpy.ndarray individuals against the buffer model (both disciplines)
+    for d in buf_cases(tier, rng, mult):
         yield d
     # a fixed share of random cases for EVERY operator (which operators run never depends on the seed)
     per_op = (300 if tier == "quick" else 1500) * mult
